@@ -33,7 +33,7 @@ fn types(r: &mut SplitMix64) -> (ColumnType, &'static str) {
         16 => (ColumnType::Decimal(if r.chance(1, 2) { Some((1 + r.below(16) as u32, r.below(6) as u32)) } else { None }), "real"), 17 => (ColumnType::DateTime, "text"), 18 => (ColumnType::Timestamp, "text"),
         19 => (ColumnType::TimestampWithTimeZone, "text"), 20 => (ColumnType::Time, "text"), 21 => (ColumnType::Date, "text"), 22 => (ColumnType::Binary(n), "blob"),
         23 => (ColumnType::VarBinary(if r.chance(1, 2) { StringLen::N(n) } else { StringLen::None }), "blob"), 24 => (ColumnType::Blob, "blob"), 25 => (ColumnType::Boolean, "numeric"),
-        26 => (ColumnType::Money(if r.chance(1, 2) { Some((1 + r.below(12) as u32, r.below(4) as u32)) } else { None }), "real"), 27 => (if r.chance(1, 2) { ColumnType::Json } else { ColumnType::JsonBinary }, "text"),
+        26 => (ColumnType::Money(if r.chance(1, 2) { Some((1 + r.below(38) as u32, r.below(4) as u32)) } else { None }), "real"), 27 => (if r.chance(1, 2) { ColumnType::Json } else { ColumnType::JsonBinary }, "text"),
         28 => (ColumnType::Uuid, "text"), _ => (ColumnType::Enum { name: a("e").into_iden(), variants: vec![a("x").into_iden(), a("y").into_iden()] }, "text"),
     }
 }
